@@ -131,7 +131,26 @@ type c11Scenario struct {
 	Dep2      int            `json:"dep2"`       // 1: a second dependency `b2` is written with defaults next to `b`; 2: and (override origin) the later file re-specifies its condition
 	Skips     int            `json:"skips"`      // bit 0: SkipValidation, bit 1: SkipInterpolation (both loads)
 	Inline    bool           `json:"inline"`     // the build section has dockerfile_inline (no dockerfile default then)
+	// Restate: list units (ports / secrets / env_file) whose ONE entry is written in BOTH layers (origins with two
+	// layers only): 1 = long form in the other layer too, 2 = short form there (`"8080:80"`, `sec`, `e.env`) when the
+	// entry has no other-valued attribute.  The merge must recognise the two spellings as the same entry (the
+	// indexers of override.EnforceUnicity apply the documented defaults to build the key), so the project still has
+	// one entry.  RSpell is the spelling (I / D) of each default-able site in the restated copy; sites written with
+	// another value (O) are repeated as they are, so both copies always describe the same entry.
+	Restate map[string]int `json:"restate,omitempty"`
+	RSpell  map[string]int `json:"rspell,omitempty"`
 }
+
+// c11TwoLayers: origins in which service `a` is assembled from two files / services
+func c11TwoLayers(origin string) bool {
+	switch origin {
+	case "override", "override3", "extends", "extends-file":
+		return true
+	}
+	return false
+}
+
+var c11RestateUnits = []string{"ports", "secrets", "env_file"}
 
 // c11Build renders the files of a scenario; implicit=true turns every D into I.
 func c11Build(sc c11Scenario, implicit bool) (files map[string]string, configFiles []string, declaresDefault bool) {
@@ -200,11 +219,28 @@ func c11Build(sc c11Scenario, implicit bool) (files map[string]string, configFil
 			mp[key] = nil
 		}
 	}
+	// valR writes site id into the restated copy of an entry: another value is repeated, a default is written
+	// out or left implicit as RSpell says (always implicit in IMP)
+	valR := func(mp map[string]any, key, id string) {
+		switch {
+		case sp(id) == spO:
+			mp[key] = core.DeepCopyVal(site(id).Oth)
+		case !implicit && sc.RSpell[id] == spD:
+			mp[key] = core.DeepCopyVal(site(id).Dflt)
+		}
+	}
+	restate := func(unit string) int {
+		if !c11TwoLayers(sc.Origin) {
+			return 0
+		}
+		return sc.Restate[unit]
+	}
 	absent := map[string]bool{}
 	for _, u := range sc.Absent {
 		absent[u] = true
 	}
 	layers := [2]map[string]any{{}, {}}
+	other := func(unit string) map[string]any { return layers[1-sc.Layer[unit]&1] }
 	at := func(unit string) map[string]any { return layers[sc.Layer[unit]&1] }
 	sub := func(mp map[string]any, k string) map[string]any {
 		if x, ok := mp[k].(map[string]any); ok {
@@ -237,11 +273,30 @@ func c11Build(sc c11Scenario, implicit bool) (files map[string]string, configFil
 		val(p, "protocol", "ports.protocol")
 		val(p, "mode", "ports.mode")
 		at("ports")["ports"] = []any{p}
+		if f := restate("ports"); f != 0 {
+			if f == 2 && !implicit && sp("ports.protocol") != spO && sp("ports.mode") != spO {
+				other("ports")["ports"] = []any{"8080:80"} // Canonical expands it to protocol tcp, mode ingress
+			} else {
+				p2 := map[string]any{"target": 80, "published": "8080"}
+				valR(p2, "protocol", "ports.protocol")
+				valR(p2, "mode", "ports.mode")
+				other("ports")["ports"] = []any{p2}
+			}
+		}
 	}
 	if !absent["secrets"] {
 		s := map[string]any{"source": "sec"}
 		val(s, "target", "secrets.target")
 		at("secrets")["secrets"] = []any{s}
+		if f := restate("secrets"); f != 0 {
+			if f == 2 && !implicit && sp("secrets.target") != spO {
+				other("secrets")["secrets"] = []any{"sec"}
+			} else {
+				s2 := map[string]any{"source": "sec"}
+				valR(s2, "target", "secrets.target")
+				other("secrets")["secrets"] = []any{s2}
+			}
+		}
 	}
 	if !absent["env_file"] {
 		// both spellings must carry the same sibling attributes: the short string form cannot hold `format`, so it is
@@ -255,6 +310,18 @@ func c11Build(sc c11Scenario, implicit bool) (files map[string]string, configFil
 			}
 			val(e, "required", "env_file.required")
 			at("env_file")["env_file"] = []any{e}
+		}
+		if f := restate("env_file"); f != 0 {
+			if f == 2 && !implicit && sp("env_file.required") != spO && !sc.NullRes {
+				other("env_file")["env_file"] = []any{"e.env"}
+			} else {
+				e2 := map[string]any{"path": "e.env"}
+				if sc.NullRes {
+					e2["format"] = "c11raw"
+				}
+				valR(e2, "required", "env_file.required")
+				other("env_file")["env_file"] = []any{e2}
+			}
 		}
 	}
 	if !absent["devices"] {
@@ -898,6 +965,21 @@ func c11RandomScenario(r *rand.Rand) c11Scenario {
 		}
 	}
 	sc.NullRes = r.Intn(2) == 0
+	if c11TwoLayers(sc.Origin) {
+		for _, u := range c11RestateUnits {
+			if r.Intn(3) == 0 {
+				if sc.Restate == nil {
+					sc.Restate, sc.RSpell = map[string]int{}, map[string]int{}
+				}
+				sc.Restate[u] = 1 + r.Intn(2)
+			}
+		}
+		if sc.Restate != nil {
+			for _, id := range []string{"ports.protocol", "ports.mode", "secrets.target", "env_file.required"} {
+				sc.RSpell[id] = r.Intn(2)
+			}
+		}
+	}
 	if r.Intn(5) == 0 {
 		sc.NoDefUse = true
 		if sc.Spell["service.networks"] == spD {
@@ -935,7 +1017,104 @@ func init() {
 	})
 }
 
+// ---- option propagation: SkipDefaultValues must mean the same wherever service `a` comes from.
+// The scenario is loaded with every default implicit and SkipDefaultValues set, once as given and once with origin
+// `main`; at the sites `transform.SetDefaultValues` fills, both projects must agree (the option is the caller's: an
+// included / extended / overriding file must not get defaults the main file is denied).
+var c11SDVSites = []string{"ports.protocol", "ports.mode", "secrets.target", "devices.count", "gpus.count", "build.context"}
+
+func c11RealSkipDefaults(raw json.RawMessage) any {
+	var sc c11Scenario
+	if err := json.Unmarshal(raw, &sc); err != nil {
+		panic(err)
+	}
+	load := func(origin string) (map[string]any, string) {
+		s2 := sc
+		s2.Origin = origin
+		files, cfs, _ := c11Build(s2, true)
+		out := core.LoadOutcome(core.LoadReq{Files: files, ConfigFiles: cfs, ProjectName: "proj", SkipDefaultValues: true})
+		b, _ := json.Marshal(out)
+		var o struct {
+			Ok  map[string]any `json:"ok"`
+			Err string         `json:"err"`
+		}
+		json.Unmarshal(b, &o)
+		return o.Ok, o.Err
+	}
+	ref, refErr := load("main")
+	got, gotErr := load(sc.Origin)
+	res := c11MetaOut{Exp: "ok", Imp: "ok"}
+	if ref == nil && got == nil {
+		res.Bad = "rejected at both origins: " + refErr
+		return res
+	}
+	if ref == nil || got == nil {
+		res.Failed = append(res.Failed, c11Check{"skip-default-values-outcome", sc.Origin, fmt.Sprintf("origin main: %q, origin %s: %q", refErr, sc.Origin, gotErr)})
+		return res
+	}
+	absent := map[string]bool{}
+	for _, u := range sc.Absent {
+		absent[u] = true
+	}
+	for _, id := range c11SDVSites {
+		if absent[c11UnitOf(id)] {
+			continue
+		}
+		var path []any
+		for _, s := range c11Sites {
+			if s.ID == id {
+				path = s.Path
+			}
+		}
+		x, okx := c11Get(ref, path)
+		y, oky := c11Get(got, path)
+		if okx != oky || !reflect.DeepEqual(x, y) {
+			res.Failed = append(res.Failed, c11Check{"skip-default-values", id + "@" + sc.Origin,
+				fmt.Sprintf("loaded with SkipDefaultValues, %s is %v (present=%v) when service a comes from the main file but %v (present=%v) when it comes from origin %s", id, x, okx, y, oky, sc.Origin)})
+		}
+	}
+	return res
+}
+
+func init() {
+	core.Register("c11.skipDefaults", &core.CheckDef{
+		Real:    c11RealSkipDefaults,
+		Timeout: 30 * time.Second,
+		Judge: func(args, real, _ json.RawMessage) *core.Verdict {
+			if v := core.CrashVerdict(real); v != nil {
+				return v
+			}
+			var out c11MetaOut
+			if err := json.Unmarshal(real, &out); err != nil {
+				return core.Disagree("malformed oracle outcome: " + string(real))
+			}
+			if out.Bad != "" {
+				return core.Disagree("oracle generator: " + out.Bad)
+			}
+			if len(out.Failed) > 0 {
+				f := out.Failed[0]
+				return core.Fail(f.Kind+":"+f.Key, f.What)
+			}
+			return nil
+		},
+	})
+}
+
 func c11Oracle(ctx *core.Ctx) {
+	// SkipDefaultValues at every origin, both layer placements, with / without the build section's siblings
+	for _, origin := range c11Origins {
+		for layer := 0; layer < 2; layer++ {
+			for _, list := range []bool{false, true} {
+				sc := c11NewScenario(origin)
+				for _, k := range c11LayerKeys {
+					sc.Layer[k] = layer
+				}
+				sc.ListDeps, sc.NullRes = list, list
+				ctx.Count("skip-default-values:" + origin)
+				ctx.Add("c11.skipDefaults", sc)
+			}
+		}
+	}
 	// exhaustive: every origin × every site × {D, O}, everything else implicit; both layer placements
 	for _, origin := range c11Origins {
 		for layer := 0; layer < 2; layer++ {
@@ -1031,6 +1210,40 @@ func c11Oracle(ctx *core.Ctx) {
 						sc.Spell["depends_on.condition"] = spell
 						ctx.Count("meta-exh-second-dependency")
 						ctx.Add("c11.meta", sc)
+					}
+				}
+			}
+		}
+	}
+	// the same list entry written in both layers, every combination of implicit / written-out per layer and both
+	// forms of the restated copy: the merge has to recognise them as one entry
+	restSites := map[string][]string{"ports": {"ports.protocol", "ports.mode"}, "secrets": {"secrets.target"}, "env_file": {"env_file.required"}}
+	for _, origin := range c11Origins {
+		if !c11TwoLayers(origin) {
+			continue
+		}
+		for layer := 0; layer < 2; layer++ {
+			for _, unit := range c11RestateUnits {
+				ids := restSites[unit]
+				for form := 1; form <= 2; form++ {
+					for mask := 0; mask < 1<<(2*len(ids)); mask++ {
+						if form == 2 && mask>>len(ids) != 0 {
+							continue // the short form has no per-site spelling
+						}
+						for _, nullRes := range []bool{false, true} {
+							sc := c11NewScenario(origin)
+							for _, k := range c11LayerKeys {
+								sc.Layer[k] = layer
+							}
+							sc.Restate, sc.RSpell = map[string]int{unit: form}, map[string]int{}
+							for i, id := range ids {
+								sc.Spell[id] = mask >> i & 1
+								sc.RSpell[id] = mask >> (len(ids) + i) & 1
+							}
+							sc.NullRes, sc.ListDeps = nullRes, mask&1 == 0
+							ctx.Count("meta-exh-restated-entry:" + unit)
+							ctx.Add("c11.meta", sc)
+						}
 					}
 				}
 			}
